@@ -165,6 +165,21 @@ def gen(args):
         rec["queries"] = [{"kind": "molecule_environments"}, {"kind": "atom_group_surroundings", "atoms": [0, 1]},
                           {"kind": "atoms_in_radius", "c": [rng.randint(-24, 48) for _ in range(3)]}]
         return rec
+    elif mode == "mol-long":
+        # a chain molecule spanning most of a small cell: its atoms fall into different cells of the search box, so the
+        # box must be the hull over *all* atoms of the centre
+        rec = xtal.gen_molecular(rng, row, nmols=1, sizes=(4, 5), n=24, vol_per_atom=rng.choice([16.0, 20.0]), with_h=False,
+                                 gram_fn=(lambda r: xtal.oblique_gram(r)) if rng.random() < 0.5 else None, min_vol=60.0, max_tries=200)
+        if rec is None:
+            return none
+        nuc = len(row["ops"]) * len(rec["asym"])
+        ch = choose_radius(rng, rec, 7, nuc, target=rng.uniform(3.0, 7.0), budget=6.0e4) or choose_radius(rng, rec, 7, nuc, budget=6.0e4)
+        if ch is None:
+            return none
+        rec["radius"], rec["k"], rec["K"] = ch
+        rec["queries"] = [{"kind": "molecule_environments"}, {"kind": "atom_group_surroundings", "atoms": [0, 1, 2]},
+                          {"kind": "atomic_surroundings"}]
+        return rec
     elif mode == "oblique":
         # tiny strongly oblique cell, radius of several cell lengths: the regime where a search box derived
         # from radius/|a_i| instead of radius*|a*_i| loses atoms
@@ -244,6 +259,9 @@ def run(ctx):
             jobs.append((r, ctx.seed * 99991 + i * 13 + k, mode, maxK))
     for j, r in enumerate(special_rows(rows) * ctx.pick(8, 60)):
         jobs.append((r, ctx.seed * 7 + 5000 + j, ("oblique", "oblique-mol", "oblique", "mol")[j % 4], maxK))
+    tri = [r for r in rows if r["number"] in (1, 2)]
+    for j in range(ctx.pick(40, 400)):
+        jobs.append((tri[j % len(tri)], ctx.seed * 11 + 9000 + j, "mol-long", maxK))
     recs = [x for x in pool_map(gen, jobs) if "__none__" not in x]
     ctx.notes["structures_generated"] = len(recs)
     traces = pool_map(drive, recs)
